@@ -39,6 +39,10 @@ func runC14(c *core.Ctx) {
 	c.Rule("R4", "conversion tables agree and fail closed", 4)
 	c.Rule("R5", "io.Writer implementations do not retain p", 3)
 	c.Rule("R6", "wrappers keep one write sink (shared with C17)", 4)
+	c.Rule("R7", "a streamed chunk handed to the write queue is not recycled or reused by the producer (shared with C10-R1/R4)", 1)
+	importObligations(c, runC10, "R7", func(o *core.Obligation) bool {
+		return (o.Rule == "R1" || o.Rule == "R4") && (strings.Contains(o.Key, "no-use-after-transfer") || strings.Contains(o.Key, "not-after-handoff") || strings.Contains(o.Key, "transfers-fresh-buffer"))
+	})
 
 	hh, arms, deflt := headArms(p)
 	if hh == nil {
